@@ -442,6 +442,40 @@ pub fn run(ctx: &Ctx) -> i32 {
         total.extra.insert("literal_texts".into(), json!(r.states));
         total.merge(r);
     }
+    // 2a'. every ordered pair of C07's object expressions combined with `+`, manifested, compared
+    // and converted (object-layer bookkeeping after objectRemoveKey / mergePatch / comprehensions)
+    {
+        let pool = crate::c07::pool(false);
+        let mut cases: Vec<String> = Vec::new();
+        for a in &pool {
+            for b in &pool {
+                cases.push(format!("local o = ({}) + ({}); [o, std.toString(o) == std.toString(o), o == o, std.objectFieldsAll(o), std.length(o)]", a.src, b.src));
+            }
+        }
+        let r = util::par_forked(&cfg, 64, |sh| {
+            let mut rep = Report::new();
+            let mut start = 0usize;
+            while start < cases.len() {
+                let arena = Arena::new();
+                let mut p = Program::new(&arena);
+                let mut next = cases.len();
+                for (ci, c) in cases.iter().enumerate().skip(start) {
+                    if !sh.mine(ci as u64) || !sh.begin_case(ci as u64, &|| c.clone()) {
+                        continue;
+                    }
+                    rep.states += 1;
+                    if classify(&mut p, c.as_bytes(), &mut rep, "object pair").is_none() {
+                        next = ci + 1;
+                        break;
+                    }
+                }
+                start = next;
+            }
+            rep
+        });
+        total.extra.insert("object_expression_pairs".into(), json!(r.states));
+        total.merge(r);
+    }
     // 2b. every single edit (token or fragment insertion, deletion, replacement, swap) of the seed programs
     let r = util::par_forked(&cfg, 128, |sh| edit_sweep(!ctx.quick(), sh));
     total.extra.insert("edited_programs".into(), json!(r.states));
@@ -547,7 +581,7 @@ pub fn run(ctx: &Ctx) -> i32 {
         ctx,
         LevelInfo {
             level: "exploration",
-            rule: "whole pipeline (load, evaluate, manifest; error spans checked) on: all byte strings up to length 3/4 over a 54-symbol alphabet; all token sequences up to length 3/4 over 60 tokens; the lexer corpora of C14 (every Unicode scalar value in every literal form, all invalid UTF-8 sequences of length <=3/4 over 19 border bytes in strings, verbatim strings, comments and text blocks, number and operator texts, text-block layouts); every single edit (insertion, deletion, replacement by each of 63 tokens and member-/clause-sized fragments, adjacent swap; thorough: plus a second deletion) of 25 well-formed seed programs; corpus programs up to the node bound; every function of std x every argument tuple from a boundary pool (40 values for arity <=2, 14 for arity 3, 7 above; quick halves the pools); 18 recursive syntactic forms at nesting depths 10..10^4(10^5), each in its own process; the real binary on one representative of every outcome class and on the nesting forms. Outcome classifier: value / Lex|Parse|Analyze error / EvalError only - a panic, abort or signal is a violation. distinct+nontrivial = distinct (function, outcome class) / sweep shards".into(),
+            rule: "whole pipeline (load, evaluate, manifest; error spans checked) on: all byte strings up to length 3/4 over a 54-symbol alphabet; all token sequences up to length 3/4 over 60 tokens; the lexer corpora of C14 (every Unicode scalar value in every literal form, all invalid UTF-8 sequences of length <=3/4 over 19 border bytes in strings, verbatim strings, comments and text blocks, number and operator texts, text-block layouts); every ordered pair of C07's object expressions combined, manifested, compared and converted; every single edit (insertion, deletion, replacement by each of 63 tokens and member-/clause-sized fragments, adjacent swap; thorough: plus a second deletion) of 25 well-formed seed programs; corpus programs up to the node bound; every function of std x every argument tuple from a boundary pool (40 values for arity <=2, 14 for arity 3, 7 above; quick halves the pools); 18 recursive syntactic forms at nesting depths 10..10^4(10^5), each in its own process; the real binary on one representative of every outcome class and on the nesting forms. Outcome classifier: value / Lex|Parse|Analyze error / EvalError only - a panic, abort or signal is a violation. distinct+nontrivial = distinct (function, outcome class) / sweep shards".into(),
             assumptions: vec!["memory exhaustion and the per-case time cap are resource outcomes, not verdicts".into(), "values outside the pools are not covered".into()],
         },
         total,
